@@ -37,10 +37,12 @@ class Dummy:
     ca = ("127.0.0.1", 50001)
 
 
-def params(method, seg, qkey, qval, hval, bodykind):
+def params(method, seg, qkey, qval, hval, bodykind, extra=False):
     """-> (request keyword arguments as an application passes them to Client.request(), the body bytes expected)"""
     path = "/top/" + seg + "/end"
     kw = {"method": method, "path": path, "qargs": {qkey: qval, "fix": "1"}, "headers": {"X-H": hval} if hval is not None else {}}
+    if extra:
+        kw["headers"].update({"X-Extra": "1", "If-None-Match": '"v1"'})
     body = b""
     if method != "GET":
         if bodykind == "raw":
@@ -55,10 +57,26 @@ def params(method, seg, qkey, qval, hval, bodykind):
     return kw, body
 
 
-def recover(wire, path, body):
+def sent_fields(wire):
+    """names of the header fields on the wire, as the WSGI environ names them"""
+    head = bytes(wire).split(b"\r\n\r\n", 1)[0].split(b"\r\n")[1:]
+    out = set()
+    for ln in head:
+        name = ln.split(b":", 1)[0].decode("latin-1").upper().replace("-", "_")
+        if name != "CONTENT_LENGTH":
+            out.add(name if name == "CONTENT_TYPE" else "HTTP_" + name)
+    return out
+
+
+def recover(wire, path, body, p=None):
+    """p: the server's parser of this connection when an earlier request has already been parsed with it"""
     from hio.core.http import serving
     from hio.core import http
-    p = serving.Requestant(msg=bytearray(wire), remoter=Dummy())
+    if p is None:
+        p = serving.Requestant(msg=bytearray(wire), remoter=Dummy())
+    else:
+        p.makeParser()
+        p.msg.extend(wire)
     while p.parser:
         before = len(p.msg)
         p.parse()
@@ -72,7 +90,12 @@ def recover(wire, path, body):
     srv.scheme, srv.name = "http", "s"
     srv.servant = type("S", (), {"eha": ("127.0.0.1", 8080)})()
     env = srv.buildEnviron(p)
-    return {"wire": wire, "method": env["REQUEST_METHOD"], "path": unquote(env["PATH_INFO"]), "path2": p.path,
+    # (the environ always has a CONTENT_LENGTH: not a header the client has to have sent)
+    # and hio lists Content-Type / Content-Length under HTTP_ as well)
+    fields = {("CONTENT_TYPE" if k == "HTTP_CONTENT_TYPE" else k) for k in env
+              if (k.startswith("HTTP_") and k != "HTTP_CONTENT_LENGTH") or (k == "CONTENT_TYPE" and env[k] != "")}
+    return {"parser": p, "fields": fields, "sent_fields": sent_fields(wire),
+            "wire": wire, "method": env["REQUEST_METHOD"], "path": unquote(env["PATH_INFO"]), "path2": p.path,
             "qargs": dict(parse_qsl(env["QUERY_STRING"], keep_blank_values=True)), "hval": env.get("HTTP_X_H"),
             "body": env["wsgi.input"].read(), "want_path": path, "want_body": body, "ctype": env.get("CONTENT_TYPE", "")}
 
@@ -91,9 +114,9 @@ def roundtrip(method, seg, qkey, qval, hval, bodykind):
 def roundtrip_seq(reqs):
     """several requests over one reused Requester, the way Client.transmit() does it -> list of results"""
     from hio.core.http import clienting
-    out, rq = [], None
-    for r in reqs:
-        kw, body = params(*r)
+    out, rq, p = [], None, None
+    for i, r in enumerate(reqs):
+        kw, body = params(*r, extra=(i % 2 == 0))      # every other request carries two more header fields
         try:
             if rq is None:
                 rq = clienting.Requester(hostname="h", port=8080, scheme="http", **kw)
@@ -105,7 +128,10 @@ def roundtrip_seq(reqs):
             if rq is None:
                 break
             continue
-        out.append(recover(wire, kw["path"], body))
+        out.append(recover(wire, kw["path"], body, p))       # one server side parser per connection, as in Server.serviceReqs
+        p = out[-1].get("parser")
+        if p is None:
+            break
     return out
 
 
@@ -125,6 +151,8 @@ def judge(r, seg, qkey, qval, hval, method, bodykind, dontcare):
         return "query arguments %r recovered as %r; wire %r" % (want_q, r["qargs"], r["wire"][:160])
     if r["hval"] != hval:
         return "header value %r recovered as %r" % (hval, r["hval"])
+    if r["fields"] != r["sent_fields"]:
+        return "the server's environ has header fields %s, the request on the wire has %s" % (sorted(r["fields"]), sorted(r["sent_fields"]))
     if r["want_body"] is not None and r["body"] != r["want_body"]:
         return "body %r recovered as %r" % (r["want_body"], r["body"])
     if bodykind == "form" and method != "GET":
